@@ -331,8 +331,9 @@ class Sched:
         except Drift as e:
             drift = str(e)
         finally:
-            for f in list(dirty):
+            for f in list(dirty) + list(self.impl.dirty):
                 self.impl._write(f)
+            self.impl.dirty.clear()
             self.free = True
             for tid in self.go:
                 self.go[tid].set()
@@ -618,6 +619,13 @@ def judge(case, impl_out, drift, m, sp, res, findings_known):
     inp = {"schedule": case["schedule"], "progs": case["progs"], "target": case["target"],
            "source": case["family"]}
     mod = {str(t): v for t, v in model_results(m, len(case["progs"])).items()}
+    blocked = [o for outs in impl_out.values() for o in outs if o.get("exc") == "SelfDeadlock"]
+    if blocked:
+        # the scheduler granted an `acquire` the model says is enabled, and the real lock was held by the other thread:
+        # the implementation has left the model's step sequence (not by itself a failing input)
+        res.disagree("model", inp, {"results": impl_out, "drift": drift}, mod, sp,
+                     note="Process._lock was held by another thread where the model's acquire is enabled (drift)")
+        return True
     spurious = [o for outs in impl_out.values() for o in outs
                 if o.get("kind") == "exc" and o.get("exc") not in PS_ERRORS]
     if spurious:
@@ -701,6 +709,8 @@ def _case_fails(ctx, impl, case):
     m, sp = o["model"], o["spec"]
     impl_out, drift = run_case(impl, case, m)
     mod = {str(t): v for t, v in model_results(m, len(case["progs"])).items()}
+    if any(x.get("exc") == "SelfDeadlock" for outs in impl_out.values() for x in outs):
+        return False, impl_out, mod, sp          # drift (see judge), not a failing input
     spurious = [x for outs in impl_out.values() for x in outs
                 if x.get("kind") == "exc" and x.get("exc") not in PS_ERRORS]
     if spurious:
